@@ -1,3 +1,93 @@
-"""Translator (data only): src/hyperloglog/data.rs -> coq/theories/Gen/HllData.v. Filled in with C03."""
+"""Translator (data only): src/hyperloglog/data.rs and the numeric constants of count()/am() in
+src/hyperloglog/mod.rs -> coq/theories/Gen/HllData.v. Every decimal literal becomes an exact decimal
+(sign, digits, exponent): value = (-1)^sign * digits / 10^exponent. Run on every check; the table
+theorems (Proofs/HllTables.v) are re-checked by the kernel whenever the source data changes."""
+import re
+
+def strip_comments(src):
+    src = re.sub(r'//[^\n]*', '', src)
+    return re.sub(r'/\*.*?\*/', '', src, flags=re.S)
+
+def dec(lit):
+    """'12.5' / '10.' / '-0.25' / '7' -> (neg, digits, exp10)"""
+    lit = lit.strip().replace('_', '')
+    neg = lit.startswith('-')
+    if neg:
+        lit = lit[1:]
+    if 'e' in lit.lower():
+        raise ValueError('exponent literal not supported: ' + lit)
+    if '.' in lit:
+        a, b = lit.split('.')
+    else:
+        a, b = lit, ''
+    digits = int((a + b) or '0')
+    return (neg, digits, len(b))
+
+def coq_dec(t):
+    neg, d, e = t
+    return '(%s, %d, %d)' % ('true' if neg else 'false', d, e)
+
+def parse_rows(body):
+    """body of `&[ &[..], &[..] ]` -> list of list of literals"""
+    rows = []
+    for m in re.finditer(r'&\s*\[(.*?)\]', body, re.S):
+        lits = [x for x in re.split(r'[,\s]+', m.group(1)) if x]
+        rows.append(lits)
+    return rows
+
+def const_body(src, name):
+    m = re.search(r'const\s+%s\s*:[^=]*=\s*(&?\s*\[)' % name, src)
+    if not m:
+        raise ValueError('constant %s not found' % name)
+    i = m.end()
+    depth, j = 1, i
+    while depth:
+        c = src[j]
+        if c == '[': depth += 1
+        elif c == ']': depth -= 1
+        j += 1
+    return src[i:j - 1]
+
 def generate(data_rs, mod_rs):
-    return []
+    src = strip_comments(open(data_rs).read())
+    out = ['(* Gen/HllData.v - GENERATED on every run by tools/hlldata.py from src/hyperloglog/data.rs. Do not edit. *)',
+           'From Coq Require Import NArith List. Import ListNotations. Open Scope N_scope.',
+           '(* a decimal literal: (negative?, digits, decimal exponent) = (-1)^neg * digits / 10^exponent *)',
+           'Definition dlit := (bool * N * N)%type.']
+    offs = {}
+    for nm in ('THRESHOLD_DATA_OFFSET', 'RAW_ESTIMATE_DATA_OFFSET', 'BIAS_DATA_OFFSET'):
+        m = re.search(r'const\s+%s\s*:\s*usize\s*=\s*(\d+)' % nm, src)
+        offs[nm] = int(m.group(1))
+        out.append('Definition %s : N := %d.' % (nm.lower(), offs[nm]))
+    th = [x for x in re.split(r'[,\s]+', const_body(src, 'THRESHOLD_DATA_VEC')) if x]
+    out.append('Definition threshold_data : list N := [%s].' % '; '.join(str(int(x.replace('_', ''))) for x in th))
+    for nm, coqn in (('RAW_ESTIMATE_DATA_VEC', 'raw_estimate_data'), ('BIAS_DATA_VEC', 'bias_data')):
+        rows = parse_rows(const_body(src, nm))
+        out.append('Definition %s : list (list dlit) := [' % coqn)
+        out.append(';\n'.join('  [' + '; '.join(coq_dec(dec(x)) for x in r) + ']' for r in rows))
+        out.append('].')
+    p2 = [x for x in re.split(r'[,\s]+', const_body(src, 'POW2MINX')) if x]
+    out.append('Definition pow2minx_data : list dlit := [')
+    out.append(';\n'.join('  ' + coq_dec(dec(x)) for x in p2))
+    out.append('].')
+    # numeric constants of the estimator in mod.rs (am(), count(), estimate_bias())
+    msrc = strip_comments(open(mod_rs).read())
+    def grab(pattern, what):
+        m = re.search(pattern, msrc, re.S)
+        if not m:
+            raise ValueError('cannot find %s in mod.rs' % what)
+        return m.groups()
+    am = grab(r'fn am\(&self\).*?if m >= (\d+) \{\s*([\d.]+) / \(1\. \+ ([\d.]+) / \(m as f64\)\)\s*\} else if m >= (\d+) \{\s*([\d.]+)\s*\} else if m >= (\d+) \{\s*([\d.]+)\s*\} else \{\s*([\d.]+)\s*\}', 'am()')
+    out.append('(* am(): if m >= %s then %s/(1+%s/m) else if m >= %s then %s else if m >= %s then %s else %s *)' % am)
+    out.append('Definition am_cut1 : N := %s. Definition am_c1 : dlit := %s. Definition am_c2 : dlit := %s.' % (am[0], coq_dec(dec(am[1])), coq_dec(dec(am[2]))))
+    out.append('Definition am_cut2 : N := %s. Definition am_c3 : dlit := %s.' % (am[3], coq_dec(dec(am[4]))))
+    out.append('Definition am_cut3 : N := %s. Definition am_c4 : dlit := %s. Definition am_c5 : dlit := %s.' % (am[5], coq_dec(dec(am[6])), coq_dec(dec(am[7]))))
+    (k,) = grab(r'const K: usize = (\d+);', 'K')
+    out.append('Definition bias_k : N := %s.' % k)
+    (five,) = grab(r'if e <= \(([\d.]+) \* m\)', 'the 5m switch')
+    out.append('Definition small_range_factor : dlit := %s.' % coq_dec(dec(five)))
+    return [('HllData.v', '\n'.join(out) + '\n')]
+
+if __name__ == '__main__':
+    for p, t in generate('/repo/src/hyperloglog/data.rs', '/repo/src/hyperloglog/mod.rs'):
+        print(p, len(t))
